@@ -1,9 +1,84 @@
-(* C04 -- Table minimisation never changes where any matched key is routed.  (work in progress) *)
+(* C04 -- Table minimisation never changes where any matched key is routed.
+
+   Property theorems only; each is closed by `exact` of a lemma of Proofs/Table*.v.  The model
+   (Model/Table.v) calls the kernels regenerated from /repo (Generated/GenTable.v: intersect,
+   get_generality, the merge key/mask expressions; Generated/GenTableEnums.v: Routes.is_link/opposite),
+   so the theorems are re-checked against the current source text.
+
+   route_eq O T (Spec/Table.v): every 32-bit key matched by O is routed by T's first matching entry to
+   the same set of links and cores, that entry listing O's source directions, or matches nothing in T
+   and O's entry went straight through from a single link (hardware default routing). *)
 From Coq Require Import ZArith List Bool.
-Require Import Rig.Generated.GenTable Rig.Model.Base Rig.Model.Table Rig.Spec.Table.
+Require Import Rig.Generated.GenTable Rig.Generated.GenTableEnums.
+Require Import Rig.Model.Base Rig.Model.Table Rig.Spec.Table.
+Require Import Rig.Proofs.TableCheck Rig.Proofs.Table.
 Import ListNotations.
 Open Scope Z_scope.
 
-Example C04_validator_runs :
-  check_route_eq [mkEntry 1 0 15 16777216; mkEntry 1 1 15 16777216] [mkEntry 1 0 14 16777216] = true.
-Proof. vm_compute. reflexivity. Qed.
+(* V -- the validator run inside Coq on every table the real minimisers return (and by C01/C10):
+   each `true` is a kernel-checked proof of route_eq for that pair of tables.  It never enumerates
+   keys: it subtracts key-mask cubes. *)
+Theorem C04_check_route_eq_sound :
+  forall O T, check_route_eq O T = true -> route_eq O T.
+Proof. exact check_route_eq_sound. Qed.
+
+(* U -- default-route removal, for ANY table (any order, any overlaps, malformed entries, any key and
+   mask integers) and any target: run without a target it returns a table [full] that routes every
+   matched key as before and is not longer; with a target it returns that same table when it fits and
+   otherwise raises MinimisationFailedError reporting exactly len full.  No other outcome exists. *)
+Theorem C04_remove_default_route_eq :
+  forall t target,
+  exists full,
+    remove_default t None = Ok full /\ route_eq t full /\ len full <= len t /\
+    remove_default t target =
+      match target with
+      | None => Ok full
+      | Some tl => if tl <? len full then Failed (len full) else Ok full
+      end.
+Proof. exact remove_default_spec. Qed.
+
+(* U -- the try-each-method front end for one table, given that ordered covering does on this table
+   what a method must (method_ok, Proofs/Table.v: routes like the input, not longer, target met or the
+   error reports the size it reaches when run to the end): the result routes like the input, is not
+   longer and meets the target, or the error reports the best size any method reached, which is above
+   the target. *)
+Theorem C04_minimise_table_route_eq :
+  forall t target,
+  method_ok oc_minimise t ->
+  match minimise_table t target with
+  | Ok r => route_eq t r /\ len r <= len t /\ (forall tl, target = Some tl -> len r <= tl)
+  | Failed n =>
+      exists tl, target = Some tl /\ tl < n /\
+                 n = Z.min (Z.min (len t) (full_size remove_default t)) (full_size oc_minimise t)
+  | OtherError | OutOfFuel => False
+  end.
+Proof. exact minimise_table_spec. Qed.
+
+(* U -- the front end for many chips (targets None / int / dictionary): every chip's table is
+   minimised as by minimise_table with that chip's target; chips whose result is empty are dropped;
+   a failure names a chip of the input and carries that chip's error; KeyError only for a chip missing
+   from the targets dictionary. *)
+Theorem C04_minimise_tables_route_eq :
+  forall ts tg,
+  NoDup (map fst ts) ->
+  (forall c t, In (c, t) ts -> method_ok oc_minimise t) ->
+  match minimise_tables ts tg with
+  | TablesOk out =>
+      (forall c t, In (c, t) ts ->
+         exists tl, target_for tg c = Some tl /\ minimise_table t tl = Ok (table_of out c) /\
+                    route_eq t (table_of out c) /\ len (table_of out c) <= len t /\
+                    (forall n, tl = Some n -> len (table_of out c) <= n))
+      /\ (forall c r, In (c, r) out -> In c (map fst ts))
+  | TablesFailed c n =>
+      exists t tl, In (c, t) ts /\ target_for tg c = Some (Some tl) /\
+                   minimise_table t (Some tl) = Failed n /\ tl < n
+  | TablesOther => exists c t, In (c, t) ts /\ target_for tg c = None
+  | TablesOutOfFuel => False
+  end.
+Proof. exact minimise_tables_spec. Qed.
+
+(* the validator accepts a genuine merge and rejects a wrong one (it is not constantly false/true) *)
+Example C04_validator_discriminates :
+  check_route_eq [mkEntry 1 0 15 16777216; mkEntry 1 1 15 16777216] [mkEntry 1 0 14 16777216] = true
+  /\ check_route_eq [mkEntry 1 0 15 16777216; mkEntry 2 1 15 16777216] [mkEntry 1 0 14 16777216] = false.
+Proof. split; vm_compute; reflexivity. Qed.
